@@ -298,7 +298,9 @@ def rot_angles(tier, seed):
 
 
 def pivots(tier):
-    p = ['self', [0.0, 0.0], [-7.25, 300.0]]
+    # 'near': a pivot a few hundredths of a pixel away from the region's own anchor (relative distance < 1e-5 for
+    # the far centre): a "pivot equals centre" shortcut based on an approximate comparison would skip the rotation
+    p = ['self', [0.0, 0.0], [-7.25, 300.0], 'near']
     if tier == 'thorough':
         p.append([8192.125, -3000.5])
     return p
@@ -553,9 +555,15 @@ def check_rot(res, spec, pv, ang):
     res.evaluations += 1
     res.axis('rot_cls', cls)
     res.axis('rot_angle', f'{ang[0]!r} {ang[1]}/{ang[2]}')
-    res.axis('rot_pivot', 'self' if pv == 'self' else str(pv))
+    res.axis('rot_pivot', pv if isinstance(pv, str) else str(pv))
     res.axis('rot_include', str(spec.get('include', 'absent' if cls != 'compound' else 'inherit')))
-    pcx, pcy = anchor(spec) if pv == 'self' else (float(pv[0]), float(pv[1]))
+    if pv == 'self':
+        pcx, pcy = anchor(spec)
+    elif pv == 'near':
+        ax, ay = anchor(spec)
+        pcx, pcy = ax + 0.046875, ay - 0.03125
+    else:
+        pcx, pcy = float(pv[0]), float(pv[1])
     theta = G.rad(ang)
     try:
         reg = G.build(spec)
